@@ -906,4 +906,51 @@ pub mod verif_hooks_reconstructor {
         let r = tracker.cursors[0].cursor.0;
         r
     }
+
+    /// Runs `process_cursors` for a list of two cursors (in the given order) and returns what
+    /// each was attached to.
+    pub fn attach2(
+        recon: &DelphiLogicalLinesReconstructor,
+        c0: u32,
+        c1: u32,
+        tokens: &[RawToken],
+    ) -> [(usize, Pos); 2] {
+        let mut cursors = [Cursor(c0), Cursor(c1)];
+        let tracker = recon.process_cursors(&mut cursors, tokens);
+        // SAFETY: `process_cursors` always returns a `CursorTrackerImpl`
+        let raw = Box::into_raw(tracker) as *mut CursorTrackerImpl;
+        let imp = unsafe { &*raw };
+        // leaked on purpose (verification builds only)
+        [
+            (imp.cursors[0].tok_idx, to_pos(&imp.cursors[0].tok_pos)),
+            (imp.cursors[1].tok_idx, to_pos(&imp.cursors[1].tok_pos)),
+        ]
+    }
+
+    /// Runs `relocate_cursors` for two cursors attached as given; returns the new offsets.
+    pub fn relocate2(
+        recon: &DelphiLogicalLinesReconstructor,
+        at: [(usize, Pos); 2],
+        formatted_tokens: &FormattedTokens,
+    ) -> [u32; 2] {
+        let mut cursor0 = Cursor(0);
+        let mut cursor1 = Cursor(0);
+        let mut tracker = std::mem::ManuallyDrop::new(CursorTrackerImpl {
+            reconstructor: recon,
+            cursors: vec![
+                InternalCursor {
+                    cursor: &mut cursor0,
+                    tok_idx: at[0].0,
+                    tok_pos: from_pos(at[0].1),
+                },
+                InternalCursor {
+                    cursor: &mut cursor1,
+                    tok_idx: at[1].0,
+                    tok_pos: from_pos(at[1].1),
+                },
+            ],
+        });
+        tracker.relocate_cursors(formatted_tokens);
+        [tracker.cursors[0].cursor.0, tracker.cursors[1].cursor.0]
+    }
 }
